@@ -15,6 +15,7 @@ type Profile struct {
 	Lambdas        bool
 	StrMatch       bool
 	Interp         bool
+	DiscardMatch   bool // a non-unit match used as a statement
 	RecursiveTypes bool // a union that refers to itself (directly, through a pair, through a slice)
 	GoKeywordNames bool // some parameters / locals are named like Go keywords (range, map, default, ...)
 	RawStr         bool
@@ -55,7 +56,7 @@ type Profile struct {
 	MaxDepth       int
 }
 
-var ProfileC01 = Profile{Name: "c01", RecursiveTypes: true, GoKeywordNames: true, MulDiv: true, Lambdas: true, StrMatch: true, Interp: true, RawStr: true, Tuple3: true, InnerFun: true, IfOnly: true,
+var ProfileC01 = Profile{Name: "c01", DiscardMatch: true, RecursiveTypes: true, GoKeywordNames: true, MulDiv: true, Lambdas: true, StrMatch: true, Interp: true, RawStr: true, Tuple3: true, InnerFun: true, IfOnly: true,
 	UnionNoDef: true, FieldPerm: true, Partial: true, Pipes: true, HigherOrder: true, CompositeEq: true, UsField: true, SliceLib: true, StringsLib: true,
 	TopVars: true, Shadow: true, LowerFields: true, Recursion: true, StrCompare: true, GenericFns: true, RecGroups: true, Stateful: true, UnitIfElse: true, PipeStmt: true, MoreSlice: true, BareLambda: true, GenericTypes: true, MinFuncs: 3, MaxFuncs: 7, MaxDepth: 4}
 
@@ -970,6 +971,22 @@ func (g *Gen) block(t *Type, outer *scope, d int, fx bool, funcTop bool) *Block 
 				pend = append(pend, pending{len(b.Stmts) - 1, []*bool{u2}})
 				g.feat("dict-group")
 			}
+		case k < 8 && fx && g.P.DiscardMatch && !g.P.NoMatch && d >= 2 && g.R.Chance(0.2):
+			// a match in statement position whose arms yield a value nobody receives (the arms are
+			// evaluated for their effects; the statements after it must still run)
+			mt := core.Pick(g.R, []*Type{TInt, TString})
+			var me Expr
+			if g.P.StrMatch && g.R.Chance(0.4) {
+				me = g.matchS(mt, sc, d-1, true)
+			} else {
+				me = g.matchU(mt, sc, d-1, true)
+			}
+			if me == nil {
+				b.Stmts = append(b.Stmts, &ExprStmt{g.unitExpr(sc, d-1)})
+			} else {
+				b.Stmts = append(b.Stmts, &ExprStmt{me})
+				g.feat("match-statement-value-discarded")
+			}
 		case k < 8 && fx: // unit statement
 			b.Stmts = append(b.Stmts, &ExprStmt{g.unitExpr(sc, d-1)})
 		case k < 9 && g.P.InnerFun && d >= 2 && isTop:
@@ -1863,6 +1880,16 @@ func (g *Gen) boolExpr(sc *scope, d int, fx bool, k int) Expr {
 	case k < 16:
 		op := core.Pick(g.R, []string{"&&", "||"})
 		g.feat("logical " + op)
+		if g.R.Chance(0.5) {
+			// a left-nested chain mixing && and || (both of one rank, left associative): the printer
+			// writes about half of them without parentheses
+			var e Expr = &BinOp{op, g.expr(TBool, sc, d-2, fx), g.expr(TBool, sc, d-2, fx)}
+			for n := 1 + g.R.Intn(2); n > 0; n-- {
+				e = &BinOp{core.Pick(g.R, []string{"&&", "||"}), e, g.expr(TBool, sc, d-2, fx)}
+			}
+			g.feat("logical-chain")
+			return e
+		}
 		return &BinOp{op, g.expr(TBool, sc, d-1, fx), g.expr(TBool, sc, d-1, fx)}
 	case k == 16:
 		g.feat("not")
